@@ -81,6 +81,17 @@ PROPS = {
                      "no 64-bit seahash collision among the strings of one case"],
         floors=(200_000, 50_000, 2_000_000, 400_000),
     ),
+    "C02": simple(
+        rule="case = (pattern line, URL); exhaustive part: every body over a 6-symbol alphabet {a b / . * ^} up to a length bound "
+             "(quick 5, thorough 7; plus an 8-symbol alphabet to length 6) x anchors {none,|p,p|,|p|,||h p,||h p|} x rule hosts x a "
+             "138-URL universe (3 schemes x 6 hosts x paths), engine per-rule matcher vs the O-pattern reference matcher; random part: "
+             "longer vocabulary patterns with rule-derived URLs; scheme patterns; /re/ rules vs the regex crate; weakening relations on "
+             "all spellings (oracle-free). non-trivial = reference says 'match' (or, for relations, the stronger rule matches some URL); "
+             "distinct = hash of (line, url) (a bounded sample of the exhaustive part's matches is hashed; all are counted in observations).",
+        assumptions=["rule options are default (all network types, both parties); options are judged by C03",
+                     "where ABP and uBO differ on ||host ending mid-label the uBO/implementation-documented reading is the reference"],
+        floors=(3_000_000, 100_000, 100_000_000, 400_000),
+    ),
 }
 
 # ---------------------------------------------------------------------------------------------
@@ -97,6 +108,15 @@ MANIFEST_TEXT = {
                 "reach is bounded by the generator vocabulary and the corpus; no seahash collisions assumed.",
         "technique": "runtime monitoring: differential oracle (linear-scan reference model) + invariant walker hook over seeded and corpus workloads",
         "design_ref": "DESIGN.md §4.1",
+    },
+    "C02": {
+        "text": "Runtime differential monitor of the real per-rule matcher against an independent ABP pattern matcher: exhaustive over all "
+                "patterns up to a length bound on a small alphabet times a small URL universe (still executed, not reasoned about), random "
+                "beyond, plus oracle-free weakening relations on every spelling and /re/ rules against the regex crate.",
+        "note": "Reference semantics are the harness's reading of ABP/uBO pattern semantics (documented in DESIGN.md §3 O-pattern); "
+                "degenerate spellings are excluded from verdicts exactly as the quantifier says.",
+        "technique": "runtime monitoring: exhaustive-small-space + random differential against a reference matcher; metamorphic weakening relations",
+        "design_ref": "DESIGN.md §4.2",
     },
 }
 
